@@ -59,6 +59,16 @@ ALLOWED_SUB = {
     "Object": SUB_OBJ + ["properties"],
 }
 
+# valid regexes (same meaning in ECMA-262 and Python) that need care when written into source text: regex escapes
+# next to characters that repr()/JSON must escape themselves (TAB, newline, NBSP, both quote characters, a backslash)
+ESCAPE_PATTERNS = ["^\\d+\t\\d+$", "\\w'\"", "a\\.b\n", "\\\\", "'", "\"'", "\\t", "\u00e9\\d", "\u00a0\\s",
+                   "[\"']\\d", "^\\$", "\\d{2}\r", "\\'", "\x7f\\w"]
+OVERLAP_FAMILIES = [
+    ("String", [{"minLength": 2}, {"maxLength": 4}, {"pattern": "^a"}]),
+    ("Number", [{"minimum": 0}, {"maximum": 10}, {"multipleOf": 2}]),
+    ("Integer", [{"minimum": 0}, {"maximum": 10}, {"multipleOf": 2}]),
+    ("Element", [{"minLength": 2}, {"maximum": 10}, {"enum": ["ab", 1, 2, None, "abcde"]}]),
+]
 PY_NAMES = ["a", "b", "c", "ab", "a_b", "class_", "x1", "value", "default", "description", "required", "enum"]
 SOURCES = ["class", "a-b", "$id", "1x", "not", "d", "A", ""]
 CLASS_NAMES = ["Foo", "Bar", "Baz", "Qux", "Quux", "Corge", "Grault", "Garply", "Waldo", "Fred", "Plugh", "Xyzzy",
@@ -120,6 +130,13 @@ def _props(node, env):
     return out
 
 
+class PlainMixin:
+    """An ordinary Python mix-in (no schema content): `class Child(PlainMixin, Parent)`."""
+
+    def describe(self):
+        return type(self).__name__
+
+
 def _build(node, env):
     if "ref" in node:
         return env[node["ref"]]
@@ -132,7 +149,10 @@ def _build(node, env):
         classdict = ObjectClassDict()
         for name, prop in _props(node, env).items():
             classdict[name] = prop
-        obj = ObjectMeta(node["name"], (base,), classdict, **kw, **sub)
+        # one mix-in class per model class (a shared one could not be linearised along a chain)
+        mixin = type("Mixin%s" % node.get("id", ""), (PlainMixin,), {})
+        bases = {"first": (mixin, base), "last": (base, mixin)}.get(node.get("mixin"), (base,))
+        obj = ObjectMeta(node["name"], bases, classdict, **kw, **sub)
     elif kind in ("AnyOf", "OneOf", "AllOf"):
         obj = KINDS[kind](*[_build(e, env) for e in node["elements"]], **kw)
     elif kind == "Not":
@@ -296,6 +316,8 @@ def _lit_kw(draw, cfg, name):
     if name == "format":
         return draw(st.sampled_from(FORMATS))
     if name == "pattern":
+        if draw(st.integers(0, 3)) == 0:
+            return draw(st.sampled_from(ESCAPE_PATTERNS))
         return draw(st.sampled_from(PATTERNS))
     if name in ("minLength", "maxLength", "minItems", "maxItems", "minProperties", "maxProperties"):
         return draw(st.integers(0, 3))
@@ -354,6 +376,10 @@ def _node(draw, cfg, depth, gen, kinds=None):
             bases = [n for n in gen.done if n["kind"] == "Object"]
             if bases:
                 node["base"] = {"ref": draw(st.sampled_from(bases))["id"]}
+                # class Child(Mixin, Parent) / class Child(Parent, Mixin): a plain Python mix-in among the bases
+                mix = draw(st.sampled_from([None, None, None, "first", "last"]))
+                if mix:
+                    node["mixin"] = mix
 
     allowed = list(ALLOWED_KW[kind])
     if not cfg.defaults and "default" in allowed:
@@ -426,6 +452,7 @@ def _node(draw, cfg, depth, gen, kinds=None):
         node["element"] = draw(sub_node())
     if kind in ALLOWED_SUB and depth > 0:
         subs = {}
+        overlap_force = None
         cand = [k for k in ALLOWED_SUB[kind] if k != "properties"]
         chosen = draw(st.lists(st.sampled_from(cand), max_size=2, unique=True))
         if kind == "Array" and "items" not in chosen and draw(st.integers(0, 4)) > 0:
@@ -448,8 +475,25 @@ def _node(draw, cfg, depth, gen, kinds=None):
                 else:
                     subs[k] = draw(sub_node())
             elif k == "patternProperties":
-                pats = draw(st.lists(st.sampled_from(PATTERNS), min_size=1, max_size=2, unique=True))
-                subs[k] = {p: draw(sub_node()) for p in pats}
+                pats = draw(st.lists(st.sampled_from(PATTERNS), min_size=1, max_size=3, unique=True))
+                force = None
+                if draw(st.integers(0, 2)) == 0:
+                    # two or three patterns that all match ONE declared name, each contributing one constraint
+                    # of a common family (a value can then satisfy some of them and violate another)
+                    import re as _re
+                    pname = draw(st.sampled_from(PY_NAMES))
+                    pool = [p for p in PATTERNS if _re.search(p, pname)]
+                    if len(pool) >= 2:
+                        pats = draw(st.lists(st.sampled_from(pool), min_size=2, max_size=3, unique=True))
+                        first, rest = draw(st.sampled_from(OVERLAP_FAMILIES))
+                        rest = draw(st.permutations(rest))
+                        subs[k] = {p: {"id": gen.new_id(), "kind": "Element", "kw": dict(part)}
+                                   for p, part in zip(pats, rest)}
+                        force = (pname, first)
+                if force is None:
+                    subs[k] = {p: draw(sub_node()) for p in pats}
+                else:
+                    overlap_force = force
             elif k == "dependencies":
                 keys = draw(st.lists(st.sampled_from(["a", "b", "class"]), min_size=1, max_size=2, unique=True))
                 subs[k] = {
@@ -465,7 +509,9 @@ def _node(draw, cfg, depth, gen, kinds=None):
             node["sub"] = subs
         want_props = kind == "Object" or (kind == "Element" and draw(st.integers(0, 2)) == 0)
         if want_props:
-            node["props"] = draw(_props_strategy(cfg, depth, gen))
+            node["props"] = draw(_props_strategy(cfg, depth, gen,
+                                                 patterns=tuple(sorted(subs.get("patternProperties", {}))),
+                                                 force=overlap_force))
             if "required" in node["kw"] and node["props"] and draw(st.booleans()):
                 # explicit lists that mention declared properties - by JSON name and by Python name
                 p0 = draw(st.sampled_from(node["props"]))
@@ -488,12 +534,28 @@ def _node(draw, cfg, depth, gen, kinds=None):
 
 
 @st.composite
-def _props_strategy(draw, cfg, depth, gen):
+def _props_strategy(draw, cfg, depth, gen, patterns=(), force=None):
     names = draw(st.lists(st.sampled_from(PY_NAMES), min_size=0 if depth <= 0 else 1, max_size=3, unique=True))
+    if force is not None:
+        names = [force[0]] + [n for n in names if n != force[0]][:2]
+    elif patterns and draw(st.booleans()):
+        # a declared name that several of the node's patterns match: governed by all of them at once
+        import re as _re
+        hits = sorted(PY_NAMES, key=lambda n: -sum(1 for p in patterns if _re.search(p, n)))
+        best = [n for n in hits if sum(1 for p in patterns if _re.search(p, n)) ==
+                sum(1 for p in patterns if _re.search(p, hits[0]))]
+        pick = draw(st.sampled_from(best))
+        if pick not in names:
+            names = [pick] + names[:2]
     props = []
     used_sources = set()
     for name in names:
         source = None
+        if force is not None and name == force[0]:
+            props.append({"name": name, "source": None, "required": draw(st.booleans()),
+                          "element": {"id": gen.new_id(), "kind": force[1], "kw": {}}})
+            used_sources.add(name)
+            continue
         if cfg.renamed and draw(st.integers(0, 2)) == 0:
             source = draw(st.sampled_from(SOURCES))
         eff = source if source is not None else name
